@@ -88,7 +88,7 @@ def _sym_alloc(fill):
             return getattr(np, fill)(shape, dtype, *a, **kw)
         out = np.empty(shape, dtype=object)
         out[...] = 0 if fill == "zeros" else (1 if fill == "ones" else 0)
-        if dtype in (bool, np.bool_):
+        if _UNSHIM.get(dtype, dtype) in (bool, np.bool_):
             out[...] = fill == "ones"
         return out
     return f
@@ -402,6 +402,41 @@ def s_block_diag(*arrs):
     return scipy.linalg.block_diag(*arrs)
 
 
+def s_linear_sum_assignment(cost, maximize=False):
+    """scipy.optimize.linear_sum_assignment by contract: returns a complete one-to-one assignment (row indices ascending)
+    whose total is optimal among ALL complete one-to-one assignments of the matrix it was given.  Which optimal
+    assignment is returned is not specified: one path per candidate, each assuming its optimality."""
+    import itertools
+    import scipy.optimize
+    if not has_sym(cost):
+        return scipy.optimize.linear_sum_assignment(cost, maximize)
+    c = ctx()
+    a = _obj(cost)
+    n, m = a.shape
+    c.__dict__.setdefault("lsa_calls", []).append((a, maximize))
+    k = min(n, m)
+    if n <= m:
+        cands = [(tuple(range(n)), cols) for cols in itertools.permutations(range(m), n)]
+    else:
+        cands = [(rows, perm) for rows in itertools.combinations(range(n), m) for perm in itertools.permutations(range(m), m)]
+    totals = []
+    for rows, cols in cands:
+        t = 0
+        for i, j in zip(rows, cols):
+            t = t + a[i, j]
+        totals.append(t)
+    sel = SNum(c.fresh("lsa", "int"))
+    c.assume(sym.And(sel >= 0, sel < len(cands)))
+    for idx in range(len(cands)):
+        if sel == idx:  # path split
+            for other in range(len(cands)):
+                if other != idx:
+                    c.assume(sym.sbool(totals[idx] >= totals[other]) if maximize else sym.sbool(totals[idx] <= totals[other]))
+            rows, cols = cands[idx]
+            return np.array(rows), np.array(cols)
+    raise sym.PathAbort()
+
+
 # ---- builtins
 class b_int(int):
     """`int` as seen by extracted code: truncation contract on symbolic numbers, the builtin otherwise."""
@@ -526,6 +561,7 @@ for _r, _s in [
     (np.amin, s_min), (np.argmax, s_argmax), (scipy.linalg.det, s_det), (np.linalg.det, s_det),
     (scipy.linalg.inv, s_inv), (np.linalg.inv, s_inv), (np.outer, s_outer), (np.trace, s_trace),
     (np.diagflat, s_diagflat), (np.diag, s_diag), (scipy.linalg.block_diag, s_block_diag),
+    (__import__("scipy.optimize", fromlist=["x"]).linear_sum_assignment, s_linear_sum_assignment),
     (math.floor, m_floor), (math.sin, _m1("sin", sym.fn_sin)), (math.cos, _m1("cos", sym.fn_cos)),
     (math.sqrt, _m1("sqrt", sym.fn_sqrt)), (math.asin, _m1("asin", sym.fn_arcsin)), (math.acos, _m1("acos", sym.fn_arccos)),
     (math.atan, _m1("atan", sym.fn_arctan)), (math.fabs, _m1("fabs", abs)), (math.exp, _m1("exp", sym.fn_exp)),
